@@ -228,9 +228,19 @@ def check_tau(ctx, algo):
             ok = False
             if len(app) == 1 and st:
                 Sm.cur = st[0]
-                st[0].locals[i] = sp.Symbol("h", positive=True)
+                h = sp.Symbol("LOOP_DEPTH", positive=True)
+                st[0].locals[i] = h
+                # temporaries computed inside the loop body before the append
+                okbody = True
+                for b in loops[0].body:
+                    if isinstance(b, ast.Assign) and len(b.targets) == 1 and isinstance(b.targets[0], ast.Name):
+                        st[0].locals[b.targets[0].id] = Sm.T.tr(b.value)
+                    elif isinstance(b, ast.Expr) and any(x is app[0] for x in ast.walk(b)):
+                        break
+                    else:
+                        okbody = False
                 got = Sm.T.tr(app[0].args[0])
-                cc, d, rho, nu, h = S("c"), sp.Symbol("DT", positive=True), S("rho"), S("nu"), S("h")
+                cc, d, rho, nu = S("c"), sp.Symbol("DT", positive=True), S("rho"), S("nu")
                 dt = st[0].locals.get("delta_tilde")
                 got = got.subs(dt, d) if dt is not None else got
                 ref = sp.ceiling(cc ** 2 * sp.log(1 / d) * rho ** (-2 * h) / nu ** 2)
